@@ -479,3 +479,4 @@ def run(F, rep, tier):
     no_unconditional_self_recursion(F, rep, "C06-R13", sorted(set(X.FXN_CRATES) | {"mech_core.lib", "mech_interpreter.lib"}), floor=5000)
     c06_codec.compile_errors_propagate(F, rep, core)
     c06_codec.discriminant_tables(F, rep, core)
+    c06_codec.panicking_kind_ladders(F, rep, core)
